@@ -1,7 +1,7 @@
 #!/bin/bash
 # all_checks.sh <tier> <seed> : run every check once, print one line per property
 TIER=${1:-quick}; SEED=${2:-1}
-cd /verif
+cd "$(dirname "$0")/.."
 for i in $(seq -w 1 20); do
   p=C$i
   s=$(date +%s)
